@@ -83,8 +83,49 @@ let run_ascii (f : string list) : (string * string) option =
           hex_of_bytes (from_crlf src))
   | _ -> None
 
+let run_frame_inner nrecv ending sched pre t : string =
+    let cfg = fixed_cfg (nat_of_int 8192) in
+    let tr = { unread = bytes_of_hex t; sched = List.map nat_of_int (ints_of sched);
+               tend = (if ending = "err" then EndErr else EndEof) } in
+    let s0 = { buffer = bytes_of_hex pre; tr = tr } in
+    let (rs, s1) = recv_n (nat_of_int (int_of_string nrecv)) cfg s0 in
+    let show = function
+      | Ok r -> "ok:" ^ string_of_n r.code ^ ":" ^ hex_of_bytes r.text
+      | Exn -> "exn" | OutOfFuel -> "livelock" in
+    let res = String.concat " " (List.map show rs) in
+    if List.exists (fun r -> r = OutOfFuel) rs then res
+    else res ^ " | left=" ^ hex_of_bytes (s1.buffer @ s1.tr.unread)
+
+let run_frame (f : string list) : (string * string) option =
+  match f with
+  | ["frame"; nrecv; ending; sched; pre; t] ->
+    let m = run_frame_inner nrecv ending sched pre t in Some (m, m)
+  | ["frame"; nrecv; ending; sched; pre; t; expect] ->
+    (match run_frame_inner nrecv ending sched pre t with m -> Some (m, String.concat " " (String.split_on_char '_' expect)))
+  | ["wfcheck"; structure; stream; expect] ->
+    let term_of = function "c" -> TCRLF | _ -> TLF in
+    let parse_line x = match String.split_on_char '.' x with
+      | [t; tm] -> { ltext = bytes_of_hex t; lterm = term_of tm } | _ -> failwith "line" in
+    let parse_reply x = match String.split_on_char ':' x with
+      | ["S"; d; r; tm] -> WSingle (bytes_of_hex d, bytes_of_hex r, term_of tm)
+      | ["M"; d; r0; t0; cs; rz; tz] ->
+        let conts = if cs = "-" then [] else List.map parse_line (String.split_on_char ',' cs) in
+        WMulti (bytes_of_hex d, bytes_of_hex r0, term_of t0, conts, bytes_of_hex rz, term_of tz)
+      | _ -> failwith "reply" in
+    let rs = List.map parse_reply (String.split_on_char ';' structure) in
+    let m8192 = nat_of_int 8192 in
+    let wf = List.for_all (fun r -> wf_reply m8192 r) rs in
+    let st = hex_of_bytes (render rs) in
+    let ex = String.concat "_" (List.map (fun r -> let e = expected r in "ok:" ^ string_of_n e.code ^ ":" ^ hex_of_bytes e.text) rs) in
+    let verdict = if not wf then "generator-produced-ill-formed-reply"
+      else if st <> stream then "render-mismatch"
+      else if ex <> expect then "expected-mismatch " ^ ex else "ok" in
+    Some (verdict, "ok")
+  | _ -> None
+
 let run (f : string list) : string * string =
   match run_ascii f with Some r -> r | None ->
+  match run_frame f with Some r -> r | None ->
   match f with
   | ["pasv"; t] ->
     let s = bytes_of_hex t in
